@@ -294,8 +294,14 @@ pub fn reverse_position_reply(
 
     // reduce position if old position is larger
     if swap.open_notional.checked_div(swap.leverage)? == Uint128::zero() {
-        // latest margin requirements
+        // latest margin requirements: negative is what the closed position pays out, positive
+        // is what it still owes
         let margin = previous_margin.checked_sub(swap.unrealized_pnl)?;
+
+        // a position that owes more than its margin cannot be closed this way either
+        if margin.is_positive() && !margin.is_zero() {
+            return Err(StdError::generic_err("Cannot close position - bad debt"));
+        }
 
         // create transfer message
         msgs.push(execute_transfer(deps.storage, &swap.trader, margin.value).unwrap());
